@@ -1,6 +1,8 @@
 package rig
 
 import (
+	"bytes"
+	"encoding/gob"
 	"encoding/hex"
 	"fmt"
 	"math/big"
@@ -265,4 +267,23 @@ func (n *Node) CheckFeeDelegation(contract, payload, sender, txHash, amount []by
 		return e.Error()
 	}
 	return ""
+}
+
+// StoredReceipts decodes what the chain DB holds for (hash, no) and re-encodes it canonically
+// (the stored gob stream carries process-dependent type ids, so raw bytes are not comparable).
+func (n *Node) StoredReceipts(hash []byte, no uint64) *StoredRcptRsp {
+	raw := n.chainDB().Get(ReceiptsKey(hash, no))
+	if len(raw) == 0 {
+		return &StoredRcptRsp{Err: "absent"}
+	}
+	var rs types.Receipts
+	rs.SetHardFork(n.cfg.Hardfork, no)
+	if err := gob.NewDecoder(bytes.NewReader(raw)).Decode(&rs); err != nil {
+		return &StoredRcptRsp{Err: "decode: " + err.Error()}
+	}
+	b, err := rs.MarshalBinary()
+	if err != nil {
+		return &StoredRcptRsp{Err: "marshal: " + err.Error()}
+	}
+	return &StoredRcptRsp{Bytes: b, Root: rs.MerkleRoot(), N: len(rs.Get())}
 }
